@@ -25,6 +25,13 @@ enum TState {
     BlockedCq { fd: i32 },
     /// Blocked until a custom condition of the scenario holds.
     BlockedOn { cond: usize },
+    /// Retry loop: becomes `OthersWait` on what the thread had seen at its previous wait.
+    SpinWait,
+    /// Can continue once other threads (or the kernel) made more than `seen` steps.
+    OthersWait { seen: u64 },
+    /// A simulated kernel thread: blocked until ring `fd` has an unconsumed
+    /// submission or condition `cond` holds.
+    BlockedSq { fd: i32, cond: usize },
     Finished,
 }
 
@@ -50,6 +57,10 @@ struct Inner {
     max_steps: u64,
     conds: Vec<bool>,
     random: Option<u64>,
+    /// Steps of others each thread had seen at its previous wait in a retry loop.
+    last_wait: Vec<u64>,
+    /// Productive steps taken by each thread itself.
+    own: Vec<u64>,
 }
 
 pub struct Sched {
@@ -90,6 +101,9 @@ impl Inner {
             TState::LockWait { epoch } => self.epoch > *epoch,
             TState::BlockedCq { fd } => simk::kernel().rings.get(fd).is_some_and(|r| r.cq_ready() > 0 || !r.backlog.is_empty()),
             TState::BlockedOn { cond } => self.conds[*cond],
+            TState::SpinWait => true,
+            TState::OthersWait { seen } => self.epoch - self.own[t] > *seen,
+            TState::BlockedSq { fd, cond } => self.conds[*cond] || simk::kernel().rings.get(fd).is_some_and(|r| r.sq_pending() > 0),
             TState::Finished => false,
         }
     }
@@ -137,8 +151,14 @@ impl Sched {
         // not count, so two waiters cannot keep each other busy for ever.
         let new_state = match new_state {
             TState::LockWait { .. } => TState::LockWait { epoch: g.epoch },
+            TState::SpinWait => {
+                let previous = g.last_wait[me];
+                g.last_wait[me] = g.epoch - g.own[me];
+                TState::OthersWait { seen: previous }
+            }
             other => {
                 g.epoch += 1;
+                g.own[me] += 1;
                 other
             }
         };
@@ -189,6 +209,10 @@ fn on_yield(label: &'static str) {
         if label == "lock.wait" {
             let epoch = s.inner.lock().unwrap_or_else(|e| e.into_inner()).epoch;
             s.hand_over(me, TState::LockWait { epoch }, label);
+        } else if label.ends_with(".wait") {
+            // A retry loop whose progress may come from the thread's own system
+            // call: continue once anything happened since its previous wait.
+            s.hand_over(me, TState::SpinWait, label);
         } else {
             s.hand_over(me, TState::Ready, label);
         }
@@ -253,6 +277,17 @@ pub fn block_on(cond: usize, label: &'static str) {
     }
 }
 
+/// Block the calling logical thread (a simulated kernel thread) until ring `fd`
+/// has an unconsumed submission or condition `cond` is set.
+pub fn block_on_sq(fd: i32, cond: usize, label: &'static str) {
+    let Some(me) = ME.with(Cell::get) else { return };
+    let Some(s) = active() else { return };
+    s.hand_over(me, TState::BlockedSq { fd, cond }, label);
+    if s.is_deadlocked() {
+        std::panic::resume_unwind(Box::new("deadlock"));
+    }
+}
+
 /// `io_uring_enter` has to wait for a completion: the logical thread blocks.
 fn on_block(info: &BlockInfo) -> BlockAction {
     let Some(me) = ME.with(Cell::get) else {
@@ -288,6 +323,8 @@ pub fn execute(bodies: Vec<Body>, prefix: Vec<usize>, random: Option<u64>, ncond
             max_steps,
             conds: vec![false; nconds],
             random,
+            last_wait: vec![0; n],
+            own: vec![0; n],
         }),
         cv: Condvar::new(),
     });
